@@ -29,6 +29,12 @@ pub enum M {
     Add { k: usize, a: u16, o: u32, s: u32 },
     Remove { k: usize },
     Burst { n: u32 },
+    /// index: remove the first `n` burst keys added so far (tombstones over many keys)
+    RemoveBurst { n: u32 },
+    /// index: update_entry_status(k, st) - 3 deletes, 6 / 7 set a non-resident flag and keep the entry
+    Status { k: usize, st: u8 },
+    /// residency: mark_span_non_resident(k, off, len)
+    Span { k: usize, off: i32, len: i32 },
     Mark { k: usize, res: bool },
     Touch { k: usize },
     Evict,
@@ -173,12 +179,23 @@ impl Scenario for Crash {
                     match obj {
                         "index" => match rng.below(10) {
                             0..=6 => M::Add { k, a: rng.below(1024) as u16, o: rng.below(1 << 30) as u32, s: rng.below(1 << 20) as u32 },
-                            7..=8 => M::Remove { k },
+                            7 => M::Remove { k },
+                            8 => match rng.below(3) {
+                                0 => M::RemoveBurst { n: *rng.pick(&[1u32, 21, 400, 1300]) },
+                                1 => M::Status { k, st: *rng.pick(&[3u8, 6, 7]) },
+                                _ => M::Remove { k },
+                            },
                             // (3700 entries in one bucket: the sorted section passes 64 KiB, the update section moves to the next boundary)
                             _ => M::Burst { n: *rng.pick(&[3u32, 30, 400, 1300, 3700]) },
                         },
                         "residency" => {
-                            if rng.chance(1, 8) { M::Burst { n: *rng.pick(&[20u32, 30, 60]) } } else { M::Mark { k, res: rng.chance(65, 100) } }
+                            if rng.chance(1, 8) {
+                                M::Burst { n: *rng.pick(&[20u32, 30, 60, 300, 1000]) }
+                            } else if rng.chance(1, 8) {
+                                M::Span { k, off: *rng.pick(&[0i32, 16, 4096, i32::MAX]), len: *rng.pick(&[1i32, 64, 65536]) }
+                            } else {
+                                M::Mark { k, res: rng.chance(65, 100) }
+                            }
                         }
                         "lru" => match rng.below(10) {
                             0..=7 => M::Touch { k },
@@ -299,6 +316,26 @@ async fn run(case: &Case, ctx: &mut Ctx) -> Option<Violation> {
                             model.insert(k9(&key), ((c % 1000) as u16, c, c));
                         }
                         *burst += *n;
+                    }
+                    M::RemoveBurst { n } => {
+                        for c in 0..(*n).min(*burst) {
+                            let key = burst_key(c);
+                            mgr.remove_entry(&EncodingKey::from_bytes(key));
+                            model.remove(&k9(&key));
+                        }
+                    }
+                    M::Status { k, st } => {
+                        let key = idx_key(*k);
+                        let status = match st {
+                            3 => cascette_client_storage::index::UpdateStatus::Delete,
+                            6 => cascette_client_storage::index::UpdateStatus::HeaderNonResident,
+                            _ => cascette_client_storage::index::UpdateStatus::DataNonResident,
+                        };
+                        let had = model.contains_key(&k9(&key));
+                        mgr.update_entry_status(&EncodingKey::from_bytes(key), status);
+                        if had && *st == 3 {
+                            model.remove(&k9(&key));
+                        }
                     }
                     _ => {}
                 }
@@ -426,6 +463,10 @@ async fn run(case: &Case, ctx: &mut Ctx) -> Option<Violation> {
                 M::Mark { k, res } => {
                     if *res { db.mark_resident(&res_key(*k)) } else { db.mark_non_resident(&res_key(*k)) }
                     model.insert(res_key(*k), *res);
+                }
+                M::Span { k, off, len } => {
+                    db.mark_span_non_resident(&res_key(*k), *off, *len);
+                    model.insert(res_key(*k), false);
                 }
                 M::Burst { n } => {
                     for c in burst..burst + *n {
